@@ -16,7 +16,7 @@ PROP = 'C14'
 LEVEL = 'exploration'
 RULE = ('designs of 1-3 library cells (3 libraries, with flip-flop, fan-out, escaped instance names) x branchforks x SDF ASTs: all subsets of IOPATH entries in file order, all permutations of the '
         'full set, duplicates; per entry edge qualifier {none,posedge,negedge} x value form {(r)(f), (r), ()(f), (r)()} by single deviation (pairs in thorough); CELL grouping {one block per '
-        'instance, instance split over two blocks, interleaved blocks} x CELL layout {one DELAY section, one per entry, TIMINGCHECK between two sections, DELAY before INSTANCE, empty DELAY section first, all header entries + comments, single line}; INTERCONNECT entries port-to-pin / pin-to-pin with and without fan-out / zero-valued, in one or two top-level blocks; '
+        'instance, instance split over two blocks, interleaved blocks} x CELL layout {one DELAY section, one per entry, TIMINGCHECK between two sections, DELAY before INSTANCE, empty DELAY section first, all header entries + comments, single line, TIMESCALE 100 ps / 1us / absent}; the same DelayFile object also annotates the design parsed with the other branch-fork setting; INTERCONNECT entries port-to-pin / pin-to-pin with and without fan-out / zero-valued, in one or two top-level blocks; '
         'every entry carries distinct min:typ:max numbers, also written as integers, negative numbers and with empty fields; distinct_nontrivial = distinct (design, SDF text) pairs with a non-zero expected array')
 ASSUMPTIONS = ['entries are applied in file order (a later entry for the same line/polarity overwrites an earlier one); the output pin of an IOPATH does not select a different line',
                'without branch forks a single-reader interconnect may be annotated on either of the two lines between the pins (both readings of "sole line" accepted)',
@@ -227,6 +227,9 @@ def expected_interconnects(lib, c, blocks, bf):
     return exps
 
 
+_OTHER = {}
+
+
 def sdf_case(res, case, ctx=None):
     from kyupy import sdf
     libname, dname, bf, escape, blocks = case['lib'], case['design'], case['bf'], case['escape'], case['blocks']
@@ -258,6 +261,21 @@ def sdf_case(res, case, ctx=None):
             if not np.array_equal(df.iopaths(c, lib), got): res.violation(key + '/iopaths-after-interconnects', case, 'iopaths() changes after interconnects() was called')
             if exps[0].any(): res.count('ic_nonzero')
             res.count('ic_cases')
+        if any(b[0] is None for b in blocks) or common.h64(text) % 4 == 0:
+            # the same DelayFile object annotates a second circuit: the same design parsed with the other branch-fork setting (other
+            # line numbering, other fork names).  What it returns is a function of (file, circuit) alone.
+            k2 = (libname, dname, not bf, escape)
+            if k2 not in _OTHER: _OTHER[k2] = build_design(libname, dname, not bf, escape)
+            c2 = _OTHER[k2][2]
+            g2, e2 = df.iopaths(c2, lib), expected_iopaths(lib, c2, blocks)
+            if g2.shape != e2.shape or not np.array_equal(g2, e2):
+                res.violation(key + '/iopaths-second-circuit', case, f'iopaths() of the same DelayFile for a second circuit (branchforks={not bf}) differs from the expected array\n{text}')
+            if any(b[0] is None for b in blocks):
+                gi2 = df.interconnects(c2, lib)
+                ex2 = expected_interconnects(lib, c2, blocks, not bf)
+                if not any(gi2.shape == e.shape and np.array_equal(gi2, e) for e in ex2):
+                    res.violation(key + '/interconnects-second-circuit', case, f'interconnects() of the same DelayFile for a second circuit (branchforks={not bf}) differs from the expected array\n{text}')
+            res.count('second_circuit_cases')
         res.count('cases')
     except Exception as ex:
         res.violation(key + f'/exception-{type(ex).__name__}', case, traceback.format_exc()[-1000:] + '\n' + text)
@@ -380,7 +398,7 @@ def replay(case):
 
 
 def finish(agg, tier):
-    need = ['cases', 'ic_cases', 'ic_nonzero']
+    need = ['cases', 'ic_cases', 'ic_nonzero', 'second_circuit_cases']
     missing = [k for k in need if not agg.counters.get(k)]
     if missing: raise common.HarnessError(f'vacuity guard: {missing} zero')
     return {}
